@@ -18,6 +18,7 @@ Games ==
       [] Family = "nonabs" -> DescribeAll("nonabs", Pick(K, NonAbsGames))
       [] Family = "diag" -> DescribeAll("diag", Pick(K, DiagGames))
       [] Family = "samerow" -> DescribeAll("samerow", Pick(K, SameRowGames))
+      [] Family = "loopdiag" -> DescribeAll("loopdiag", Pick(K, LoopDiagGames))
       [] Family = "slow" -> DescribeAll("slow", Pick(K, SlowGames))
       [] Family = "bigrew" -> DescribeAll("bigrew", Pick(K, BigRewGames))
       [] Family = "ties" -> DescribeAll("ties", Pick(K, TieGames))
